@@ -47,7 +47,7 @@ TECHNIQUE = "property-based testing (Hypothesis): model-based oracle over genera
 
 
 def cases(tier):
-    return 2400 if tier == "quick" else 96000
+    return 2400 if tier == "quick" else 480000
 
 
 def strategy(hazards):
